@@ -11,6 +11,11 @@ query mode, cycles):
   coords   a second table placed with add_table(x, y) for every (x, y) pair of a coordinate grid
   fixture  every readable fixture (mc.snapshot.readable_fixtures()), untouched (thorough: also with
            the full S applied to its first ordinary table)
+  order    every order (4! = 24) in which the four label attributes {table+sheet name, caption text,
+           caption_enabled, table_name_enabled} are set on loaded documents whose first table has no
+           caption object yet (test-1.numbers + the two smallest such fixtures), on the smallest fixture
+           whose table owns one, and on a fresh document; thorough: x geometry attributes set before /
+           after the labels x all four boolean pairs
 
 each followed by 2 (quick) / 3 (thorough) open -> [query] -> save -> reopen cycles.
 
@@ -20,12 +25,11 @@ instance is the one that is saved - queried or not, by the case's query mode.  D
 G_1 == G_0 (nothing changes through save+reopen), G_{k+1} == G_k (no drift), values set through the
 API read back live as set, and a queried subject reports what the observer reports.
 
-One genuine defect is known (DESIGN.md C16): a reported size that is written back on save (every
-column width, every queried or freshly set row height) grows by the border allowance the reader adds
-again on the next open.  A size difference is attributed to it ONLY if the new value equals
-floor(round(old) + top/2 + bottom/2) computed here from the borders the observer reads in the reopened
-file, the allowance is > 0, and the harness' own bookkeeping says the size was written back.  Any
-other difference keeps a different identity and is a VIOLATION.
+The border-allowance drift (DESIGN.md C16: a written-back size grew by the allowance the reader adds
+again) was repaired by ca6ff89.  The check still CLASSIFIES a size difference as
+"border-allowance-drift" when the new value equals floor(round(old) + top/2 + bottom/2) computed here
+from the borders the observer reads in the reopened file - that identity matches no known finding any
+more, so drift is a VIOLATION like every other difference.
 """
 from __future__ import annotations
 
@@ -617,7 +621,7 @@ def work(cases):
             part.count("unqueried_cases_with_unequal_row_heights")
         keys.append((fam, info.get("g0"), case.get("border", "none"), case["q"], case.get("order", "")))
         kinds = sorted({i["mechanism"] + ":" + i.get("class", i.get("attr", "")) for i, _ in res})
-        part.outcome("held" if not res else "|".join(kinds))
+        part.outcome(f"held:{fam}:{case.get('border', 'none')}:q={case['q']}" if not res else "|".join(kinds))
         label = case.get("fixture") or (f"{case['doc']} order={'>'.join(case['perm'])} geometry={case['geom'] if any(a in case['vals'] for a in ATTRS[:3]) else 'unset'}" if case["kind"] == "order"
                                         else f"{case['kind']} S={case.get('S', 0):07b} border={case.get('border', 'none')}")
         for ident, detail in res:
